@@ -17,6 +17,8 @@ func init() {
 	zzsv.Register("ZZ_C04_Unsupported", ZZ_C04_Unsupported)
 	zzsv.Register("ZZ_C04_Map", ZZ_C04_Map)
 	zzsv.Register("ZZ_C04_Runs", ZZ_C04_Runs)
+	zzsv.Register("ZZ_C04_RunsAfterFailure", ZZ_C04_RunsAfterFailure)
+	zzsv.Register("ZZ_C04_MapShapes", ZZ_C04_MapShapes)
 }
 
 type zzRecA struct {
@@ -431,5 +433,90 @@ func ZZ_C04_Runs(sv *zzsv.T) {
 	} else {
 		sv.Assert("C04.runs.first", zzSame(sv, out1, zStr(o1.B)))
 		sv.Assert("C04.runs.second", zzSame(sv, out2, zStr(o2.B)))
+	}
+}
+
+// ZZ_C04_RunsAfterFailure: "each run sees the object passed to that run"
+// also after a run that ended badly - an error, a panic() or an unknown
+// function inside a user-defined function, at top level, inside a loop - and
+// whatever the shapes of the two objects are (structs, maps with other keys).
+func ZZ_C04_RunsAfterFailure(sv *zzsv.T) {
+	faults := []string{
+		"function chk(x) { if (x < 0) { panic(\"negative\"); } return x; } return chk(A) + A;",
+		"function chk(x) { if (x < 0) { return x + \"s\"; } return x; } return chk(A) + A;",
+		"function chk(x) { if (x < 0) { return nosuch(x); } return x; } return chk(A) + A;",
+		"function chk(x) { foreach v in [1, 2] { if (x < 0) { return v / 0; } } return x; } return chk(A) + A;",
+		"if (A < 0) { return A / 0; } return A + A;",
+		"function deep(x) { return chk(x); } function chk(x) { if (x < 0) { panic(\"negative\"); } return x; } return deep(A) + A;",
+	}
+	e := New(faults[sv.Choice("script", len(faults))])
+	sv.Note("script", e.Script)
+	sv.Assume(e.Prepare() == nil)
+	a1 := sv.Int64("A1")
+	a2 := sv.Int64("A2")
+	sv.Assume(a1 < 0 && a1 > -1000 && a2 >= 0 && a2 < 1000000)
+	var first, second interface{}
+	switch sv.Choice("shapes", 4) {
+	case 0:
+		first, second = zzTwo{A: a1}, zzTwo{A: a2}
+	case 1:
+		first, second = map[string]interface{}{"A": a1, "X": 1}, map[string]interface{}{"A": a2}
+	case 2:
+		first, second = &zzTwo{A: a1}, map[string]interface{}{"A": a2, "Y": "y"}
+	default:
+		p := &zzTwo{A: a1}
+		first, second = p, p
+	}
+	_, err1 := e.Execute(first)
+	sv.Assert("C04.afterfail.first_fails", err1 != nil)
+	if p, same := second.(*zzTwo); same && first == second {
+		p.A = a2
+	}
+	out, err2 := e.Execute(second)
+	zzDescribe(sv, "second", out, err2)
+	sv.Assert("C04.afterfail.second", err2 == nil && zzSame(sv, out, zInt(a2+a2)))
+	// and a third run on the first object fails again
+	if p, same := first.(*zzTwo); same && first == second {
+		p.A = a1
+	}
+	_, err3 := e.Execute(first)
+	sv.Assert("C04.afterfail.third_fails", err3 != nil)
+}
+
+// ZZ_C04_MapShapes: maps of different key sets, one after the other: a key
+// the earlier map had and this one lacks is neither a field nor a variable
+// and yields null; a key this one has reads this one's value.
+func ZZ_C04_MapShapes(sv *zzsv.T) {
+	a1 := sv.Int64("A1")
+	a2 := sv.Int64("A2")
+	b1 := zzASCII(sv, "B1", 1)
+	scripts := []string{"return B;", "return A;", "if (B) { return A; } return 0 - A;", "function f() { return B; } return f();"}
+	k := sv.Choice("script", len(scripts))
+	e := New(scripts[k])
+	sv.Note("script", e.Script)
+	sv.Assume(e.Prepare() == nil)
+	m1 := map[string]interface{}{"A": a1, "B": b1}
+	var m2 interface{} = map[string]interface{}{"A": a2}
+	if sv.Choice("second", 2) == 1 {
+		m2 = map[string]interface{}{"A": a2, "C": true}
+	}
+	out1, err1 := e.Execute(m1)
+	out2, err2 := e.Execute(m2)
+	zzDescribe(sv, "first", out1, err1)
+	zzDescribe(sv, "second", out2, err2)
+	sv.Assert("C04.shapes.noerror", err1 == nil && err2 == nil)
+	if err1 != nil || err2 != nil {
+		return
+	}
+	switch k {
+	case 0, 3:
+		sv.Assert("C04.shapes.first", zzSame(sv, out1, zStr(b1)))
+		sv.Assert("C04.shapes.second_is_null", zzSame(sv, out2, zNull()))
+	case 1:
+		sv.Assert("C04.shapes.first", zzSame(sv, out1, zInt(a1)))
+		sv.Assert("C04.shapes.second", zzSame(sv, out2, zInt(a2)))
+	default:
+		sv.Assert("C04.shapes.first", zzSame(sv, out1, zInt(a1)))
+		sv.Assert("C04.shapes.second", zzSame(sv, out2, zInt(0-a2)))
 	}
 }
